@@ -200,3 +200,21 @@ PROPS["C10"] = {
         lane("TestGlobal", "global", 300, 1500, shards=8, must_classes=["cold-type-contended"]),
     ],
 }
+
+PROPS["C18"] = {
+    "pkg": "c18",
+    "level": "exploration",
+    "technique": "property-based testing (rapid) over arbitrary linked proto3 descriptor sets; totality + self-consistency predicates on the reflected schemas, codec smoke on every reflected type",
+    "level_text": ("Raw proto3 files built from messages, nesting, enums with and without *_UNSPECIFIED, real/exposed/synthetic oneofs, maps with any key kind, "
+                   "every scalar kind incl. fixed/sfixed, well-known types, self and mutual recursion, unchecked flatten, and (j5.ext.v1.*), (buf.validate.field), "
+                   "(j5.list.v1.field) options consistent or not with their field. SchemaSetFromFiles / SchemaCache.Schema / Reflector.NewRoot must return "
+                   "(value or error) without panic inside a watchdog; on success every property's proto path must resolve to a field of matching kind and "
+                   "cardinality, property names must be unique per object, and the codec must encode (no error) and decode (no panic) an empty and a populated message."),
+    "level_note": "Sampled; unbounded recursion kills the worker (stack overflow) and is attributed through the case journal.",
+    "rule": ("arbitrary: pgen.Draw(Arbitrary) + one mgen message per message type. Non-trivial: the set has an unsupported scalar kind, a non-J5 well-known type, "
+             "recursion, an unchecked flatten, a non-string map key, an enum without UNSPECIFIED or any validate/list/j5 option. Distinct by hash(files, messages)."),
+    "assumptions": [],
+    "lanes": [
+        lane("TestArbitrary", "arbitrary", 1500, 6000, shards=16),
+    ],
+}
